@@ -138,10 +138,15 @@ def faults(isa, rng):
         return v['operands']['count'] >= 0 and 'specific_operands' not in v['operands'] or None
     mut('count!=operand-set-list', count_sets)
 
+    def count_spec_mixed(d):
+        v = find_variant_with_sets(d)
+        n = v['operands']['count']
+        lst = {f'xs{k}': {'type': 'numeric', 'argument': {'size': 8, 'byte_align': True}} for k in range(n + rng.choice([1, 2]) if n < 2 or rng.random() < 0.5 else n - 1)}
+        v['operands'].setdefault('specific_operands', {})['bad_len'] = {'list': lst}
+    mut('count!=specific-operand-list', count_spec_mixed)
+
     def count_spec(d):
         v = find_variant_with_spec(d)
-        if 'operand_sets' in v['operands']:
-            return False
         name = next(iter(v['operands']['specific_operands']))
         lst = v['operands']['specific_operands'][name]['list']
         if rng.random() < 0.5 and len(lst) >= 1:
